@@ -71,7 +71,11 @@ func Roll(src *rand.PCGSource, dicePoints IntType, mod int) IntType {
 	if mod == 1 {
 		return dicePoints
 	}
+	if v, ok := verifRoll(src, dicePoints); ok {
+		return v
+	}
 	if src == nil {
+		verifShared("randSource", true)
 		src = randSource
 	}
 
